@@ -7,7 +7,7 @@ BOUNDS = {
              "symbolic f in [0,1], or is a never-filled well (volume 0, no component); operations: Labware.add / worklist dispense with a symbolic "
              "incoming two-component composition (one shared, one new component), transfer between two labware / within one labware / within one "
              "well (k=1, <=2 split steps; k=2 without splitting), distribute to 1-2 wells, aspirate; volumes >= 0 symbolic (the zero-volume classes are "
-             "decided by the solver); both devices; plate 2x2 / trough 2x2; plus the constructors with symbolic initial volumes (one-hot initial state, naming)",
+             "decided by the solver); both devices; plate 2x2 / trough 2x2; plus the constructors with symbolic initial volumes (one-hot initial state, naming); add / dispense of two entries with their own volumes (>= 0) and different compositions into two wells or into ONE real well (id repeated / two virtual rows)",
     "thorough": "k=1 with <=2 split steps on every labware pair, k=2 (2 candidate wells per slot, no splitting) on every labware pair and both devices",
 }
 OUTSIDE = ">3 components, >2 operations in sequence (covered inductively), float rounding (exact real arithmetic; division by a possibly-zero numpy scalar is reported as a non-finite outcome)"
